@@ -37,9 +37,12 @@ Naive == -1000
 Zones == IF Thorough THEN {Naive, 0, 330, -480} ELSE {Naive, 0, 330}
 IssuerIds == { C(8, 3), C(58, 1), C(300, 2) }                   \* text "iss", sequence-number component, 3-byte type number
 
+ReqF(fn, subj, kn, iss, idform, sg, clock, start, dur, tz, tz2) ==
+  [fn |-> fn, subj |-> subj, keyname |-> KeyName(kn), publen |-> PubLen(subj), issuer |-> iss, idform |-> idform, sg |-> sg,
+   clock |-> clock, start |-> start, dur |-> dur, tz |-> tz, tz2 |-> tz2]
+\* the issuer id of a generic component as plain text, of any other as an encoded component
 Req(fn, subj, kn, iss, sg, clock, start, dur, tz) ==
-  [fn |-> fn, subj |-> subj, keyname |-> KeyName(kn), publen |-> PubLen(subj), issuer |-> iss, sg |-> sg,
-   clock |-> clock, start |-> start, dur |-> dur, tz |-> tz]
+  ReqF(fn, subj, kn, iss, IF fn = "derive" /\ iss.t = 8 /\ iss.l > 0 THEN "plain" ELSE "comp", sg, clock, start, dur, tz, tz)
 
 DeriveSigners == { Req("derive", k, 1, C(8, 3), s, NormalClock, At(2024, 2, 28, 23, 59, 59), 2 * 86400, Naive) :
                      k \in SubjTypes, s \in Issuers }
@@ -49,11 +52,26 @@ DeriveTimes == { Req("derive", "ec256", kn, id, s, NormalClock, st, du, tz) :
                           ELSE { SgI("ecdsa", 72, 71, TRUE) }),
                    st \in (IF Thorough THEN Starts ELSE { Epoch, At(2000, 2, 28, 23, 59, 59), At(2024, 2, 29, 0, 0, 0), At(2100, 2, 28, 12, 0, 0) }),
                    du \in Durs, tz \in Zones }
+\* issuer ids: every component shape x every spelling that can denote it
+\* (shorthands exist for version 54, segment 50, byte offset 52, timestamp 56, sequence number 58)
+ShortTypes == {50, 52, 54, 56, 58}
+IdShapes == { C(8, 2), C(8, 7), C(8, 0), C(32, 2), C(54, 1), C(50, 2), C(58, 4), C(56, 8), C(300, 2), C(1, 32) }
+FormsOf(c) == {"comp", "typed"} \cup (IF c.l > 0 THEN {"escaped"} ELSE {}) \cup (IF c.t = 8 /\ c.l > 0 THEN {"plain"} ELSE {})
+              \cup (IF c.t \in ShortTypes /\ c.l \in {1, 2, 4, 8} THEN {"short"} ELSE {})
+DeriveIssuerIds == UNION { { ReqF("derive", "ec256", 1, c, f, SgI("hmac", 32, 32, TRUE), NormalClock,
+                                  At(2024, 5, 6, 7, 8, 9), 3600, 0, 0) : f \in FormsOf(c) } : c \in IdShapes }
+\* new_cert with the start and the end expressed independently (naive / UTC / other zones)
+NewCertZones == { ReqF("new_cert", "ec256", 1, C(8, 3), "comp", s, NormalClock, st, du, z1, z2) :
+                    s \in { SgI("ecdsa", 72, 71, TRUE) } \cup (IF Thorough THEN { SgI("rsa", 256, 256, TRUE) } ELSE {}),
+                    st \in { At(2024, 2, 28, 23, 59, 59), At(2000, 1, 1, 0, 0, 0) },
+                    du \in (IF Thorough THEN { 1, 86400, 7305 * 86400 } ELSE { 86400 }),
+                    z1 \in Zones \cup {-480}, z2 \in Zones \cup {-480} }
 DeriveClocks == { Req("derive", "ed25519", 1, C(8, 3), SgI("hmac", 32, 32, TRUE), ck, Epoch, 1, Naive) : ck \in Clocks }
 Own(fn) == UNION { { Req(fn, k, kn, C(8, 0), s, ck, Epoch, 0, Naive) :
                        kn \in (IF Thorough THEN {1, 2} ELSE {1}), s \in OwnSigners(k),
                        ck \in (IF Thorough \/ k = "ec256" THEN Clocks ELSE { NormalClock, Clk(At(2024, 2, 29, 12, 0, 0), 0) }) } :
                    k \in SubjTypes }
 
-ReqSpace == { q \in DeriveSigners \cup DeriveTimes \cup DeriveClocks \cup Own("self_sign") \cup Own("sign_req") : InScope(q) }
+ReqSpace == { q \in DeriveSigners \cup DeriveTimes \cup DeriveClocks \cup DeriveIssuerIds \cup NewCertZones
+                    \cup Own("self_sign") \cup Own("sign_req") : InScope(q) }
 =============================================================================
